@@ -227,7 +227,8 @@ pub fn c09(c: &mut Ctx, b: &Budget) {
         c.check("threshold-none-means-all", matches!(got, Ok(Ok(v)) if v == (valid == sg.len())), "threshold", || "None threshold".into());
         let sub: Vec<&dyn bc_envelope::Verifier> = chosen.iter().map(|&j| &sg[j].pk as &dyn bc_envelope::Verifier).collect();
         let got = guarded(|| signed.has_signatures_from(&sub));
-        c.check("threshold-none-means-all", matches!(got, Ok(Ok(true))), "threshold", || "all signers listed".into());
+        // (every signer listed: true unless one of them is the recorded SSH-ECDSA signer whose own signature the dependency refuses)
+        c.check("threshold-none-means-all", matches!(got, Ok(Ok(v)) if v == (valid == chosen.len())), "threshold", || "all signers listed".into());
         c.end();
     }
     // metadata and adversarial 'signed' assertions
